@@ -429,10 +429,8 @@ namespace CaddyModel.C20
 /-- counter-example lines replayed on the implementation on every run (see Witness.lean):
     1 hash on an integer field (passed through)                             hash_full_fails
     2 cookie filter on a string field (passed through)                      hash_full_fails
-    3 filter encoder: `request → rename rq` switches `request>uri → delete` off   fenc_object_filter_full_fails
-    (the former query / ip_mask / trailer witnesses are regression cases in corpus/C20/ now) -/
+    (the former query / ip_mask / trailer / filter-encoder witnesses are regression cases in corpus/C20/ now) -/
 def witnessLines : List String := [
   "C20 flt hash 737461747573 o 0 .",
-  "C20 flt cookie:d,736964,- 636f6f6b6965 s 7369643d3031323334353637383961626364656630313233343536373839616263646566 .",
-  "C20 fenc 1 72657175657374@rename:7271+726571756573743e757269@delete o:72657175657374/l:757269:s:2f783f746f6b656e3d3031323334353637383961626364656630313233343536373839616263646566/c ."]
+  "C20 flt cookie:d,736964,- 636f6f6b6965 s 7369643d3031323334353637383961626364656630313233343536373839616263646566 ."]
 end CaddyModel.C20
